@@ -1479,6 +1479,12 @@ fn optimizer_equiv(seed: u64) -> serde_json::Value {
         ("two PRF nodes with the same key and counter feeding a difference".into(), Box::new(move |g| { let k = g.input(array_type(vec![128], BIT))?; let a = g.input(array_type(vec![3], INT32))?; let p1 = k.prf(0, array_type(vec![3], INT32))?; let p2 = k.prf(0, array_type(vec![3], INT32))?; a.add(p1)?.subtract(p2) })),
         ("annotated copies are not merged with plain ones".into(), Box::new(move |g| { let a = g.input(array_type(vec![3], INT32))?; let n1 = a.nop()?; n1.add_annotation(NodeAnnotation::Send(0, 1))?; let n2 = a.nop()?; n1.add(n2) })),
         ("constants and unused constant".into(), Box::new(move |g| { let a = g.input(array_type(vec![3], INT32))?; let c1 = g.constant(array_type(vec![3], INT32), Value::from_flattened_array(&[1u64, 2, 3], INT32)?)?; let _c2 = g.constant(array_type(vec![3], INT32), Value::from_flattened_array(&[9u64, 9, 9], INT32)?)?; a.multiply(c1.clone())?.add(c1) })),
+        ("send marker on a folded TupleGet".into(), Box::new(move |g| { let a = g.input(array_type(vec![3], INT32))?; let b = g.input(array_type(vec![3], INT32))?; let tp = g.create_tuple(vec![a.clone(), b.clone()])?; let t1 = tp.tuple_get(1)?; t1.add_annotation(NodeAnnotation::Send(0, 1))?; t1.add(a) })),
+        ("send marker on a folded VectorGet / NamedTupleGet".into(), Box::new(move |g| { let a = g.input(array_type(vec![3], INT32))?; let b = g.input(array_type(vec![3], INT32))?; let v = g.create_vector(array_type(vec![3], INT32), vec![a.clone(), b.clone()])?;
+            let i1 = g.constant(scalar_type(UINT64), Value::from_scalar(1, UINT64)?)?; let e = v.vector_get(i1)?; e.add_annotation(NodeAnnotation::Send(1, 2))?;
+            let nt = g.create_named_tuple(vec![("x".to_owned(), a.clone()), ("y".to_owned(), e.clone())])?; let y = nt.named_tuple_get("y".to_owned())?; y.add_annotation(NodeAnnotation::Send(2, 0))?; y.add(a) })),
+        ("send marker on a folded A2B(B2A)".into(), Box::new(move |g| { let a = g.input(array_type(vec![3], INT32))?; let bits = a.a2b()?; let back = bits.b2a(INT32)?; back.add_annotation(NodeAnnotation::Send(0, 2))?; let again = back.a2b()?; again.add_annotation(NodeAnnotation::Send(1, 0))?; again.b2a(INT32)?.add(back) })),
+        ("B2A of A2B with another scalar type is not folded away".into(), Box::new(move |g| { let a = g.input(array_type(vec![3], INT32))?; let u = a.a2b()?.b2a(UINT32)?; let c = g.constant(array_type(vec![3], UINT32), Value::from_flattened_array(&[1u64, 2, 3], UINT32)?)?; u.add(c) })),
         ("tuple plumbing".into(), Box::new(move |g| { let a = g.input(array_type(vec![3], INT32))?; let b = g.input(array_type(vec![3], INT32))?; let tp = g.create_tuple(vec![a.clone(), b.clone()])?; tp.tuple_get(1)?.add(tp.tuple_get(0)?)?.add(a) })),
         ("matrix products in both orders on the same operands".into(), Box::new(move |g| { let a = g.input(array_type(vec![2, 2], INT64))?; let b = g.input(array_type(vec![2, 2], INT64))?; let v = g.input(array_type(vec![2], INT64))?;
             g.create_tuple(vec![a.dot(b.clone())?.subtract(b.dot(a.clone())?)?, a.matmul(b.clone())?.subtract(b.matmul(a.clone())?)?, v.dot(a.clone())?, a.dot(v)?]) })),
@@ -1543,9 +1549,12 @@ fn optimizer_equiv(seed: u64) -> serde_json::Value {
             let prf0 = g0.get_nodes().iter().filter(|n| live[n.get_id() as usize] && matches!(n.get_operation(), Operation::PRF(_, _))).count();
             let prf1 = g1.get_nodes().iter().filter(|n| matches!(n.get_operation(), Operation::PRF(_, _))).count();
             if prf1 != prf0 { return Ok(Some(format!("PRF nodes the output depends on: {} before, {} after", prf0, prf1))); }
-            let send0 = g0.get_nodes().iter().filter(|n| live[n.get_id() as usize] && !n.get_annotations().unwrap().is_empty()).count();
-            let send1 = g1.get_nodes().iter().filter(|n| !n.get_annotations().unwrap().is_empty()).count();
-            if send1 != send0 { return Ok(Some(format!("annotated nodes the output depends on: {} before, {} after", send0, send1))); }
+            // every marker of a node that still has an image sits on that image (a node whose value is no longer needed has no image, and two folded nodes may share one)
+            for n in g0.get_nodes() {
+                if !mapped.mappings.contains_node(&n) { continue; }
+                let m = mapped.mappings.get_node(&n); let have = m.get_annotations()?;
+                for a in n.get_annotations()? { if !have.contains(&a) { return Ok(Some(format!("node {} ({}) carries {:?}; its image, node {} ({}), carries {:?}", n.get_id(), n.get_operation(), a, m.get_id(), m.get_operation(), have))); } }
+            }
             // recorded types are the ones type inference derives
             let fc = create_context()?; let fg = fc.create_graph()?; let mut fresh: Vec<Node> = vec![];
             for n in g1.get_nodes() {
